@@ -26,6 +26,8 @@ NOISE = [
     "VAR T 1\nVAR F 2\nVAR n 3^200\n$STRING n\nVAR s \"a  b\"\nSTRING\n    one\n    two\nVAR\n    p 1\n    q 2\nDEFAULT_DELAY 5",
     # stack overflow
     "FUNC f\n    RUN f\nRUN f",
+    # commands that warn about their own use
+    "DEFAULT_DELAY\n    5\n    6\nSTRING x\nDEFAULTDELAY 7\n    8",
     # tab error, unclosed quote
     "STRING a\n        b\n    c",
     "IGNORE\n    \"\"\"\n    never closed",
